@@ -111,7 +111,7 @@ Definition pcinv (c : cfg) (s : store) (t : thread) : Prop :=
   | Z10 true => zip_ok c s
   | F0 | F1 => zip_ok c s
   | F2 => zip_ok c s /\ dir s <> None
-  | F4 => zip_ok c s /\ marker s = true
+  | F4 => zip_ok c s /\ marker s = true /\ dir s <> None
   | F6 => zip_ok c s /\ dir s = None
   | U0 | U2 => zip_ok c s /\ marker s = true /\ dir s = None
   | UM | E0 | E1 => False
